@@ -22,6 +22,7 @@ type tField struct {
 	FName       string `json:"fname"`
 	Norm        string `json:"norm"`
 	CtorPresent int    `json:"ctorpresent"`
+	Idx         int    `json:"idx"` // position of the entry in the table row (the wire number the decoder looks it up by)
 }
 
 type tMsg struct {
@@ -87,6 +88,11 @@ func exportTables(p *Profile, sch *Schema) map[string]interface{} {
 		rows = append(rows, m)
 		tm := tMsg{M: m, IsKnown: b2i(known[m]), Fields: []tField{}}
 		t := fit.VerifMesgType(fit.MesgNum(m))
+		if t != nil && t.Kind() != reflect.Struct {
+			// something else than the message struct is registered (a pointer type ...): reported as "no type"
+			tm.Name = t.String()
+			t = nil
+		}
 		if t != nil {
 			tm.HasType, tm.Name, tm.NF = 1, t.Name(), t.NumField()
 		}
@@ -99,12 +105,12 @@ func exportTables(p *Profile, sch *Schema) map[string]interface{} {
 				ctor = reflect.Value{} // the constructor builds another type: reported by TLC; nothing to read field by field
 			}
 		}
-		for _, f := range fs {
+		for fi, f := range fs {
 			if f == nil {
 				continue
 			}
 			a := b2i(f.Array)
-			tf := tField{PField: PField{N: int(f.Num), S: f.Sindex, B: int(f.Base & 0x1F), A: a, K: int(f.Kind), L: int(f.Length), T: int(f.Type)}}
+			tf := tField{Idx: fi, PField: PField{N: int(f.Num), S: f.Sindex, B: int(f.Base & 0x1F), A: a, K: int(f.Kind), L: int(f.Length), T: int(f.Type)}}
 			if t != nil && f.Sindex >= 0 && f.Sindex < t.NumField() {
 				sf := t.Field(f.Sindex)
 				tf.FName, tf.Norm = sf.Name, normName(sf.Name)
